@@ -259,6 +259,8 @@ func TestC16(t *testing.T) {
 			Arrange(rt, s, o, "s", false, 4), // split into successive loads
 			Arrange(rt, s, o, "x", true, 1),  // members in extend blocks
 			Arrange(rt, s, o, "sx", true, 4)) // both
+		// one document, extend blocks in any order and without regard to what belongs together
+		c.Arrangements = append(c.Arrangements, ArrangeLoose(rt, s, o, "lx"))
 		// every definition in a first load, nothing but the extend blocks in a second one
 		if parts := ExtendsLast(c.Arrangements[3]); parts != nil {
 			c.Arrangements = append(c.Arrangements, &Arrangement{Docs: [][]Piece{{{Text: parts[0]}}, {{Text: parts[1]}}}, Splits: 1, Moved: c.Arrangements[3].Moved})
